@@ -685,6 +685,34 @@ async def _range_probe(
 # ---------------------------------------------------------------------------
 
 
+_CONTENT_RANGE_RE = re.compile(r"^\s*bytes\s+(\d+)-(\d+)/(\d+|\*)\s*$")
+
+
+def _check_content_range(content_range: str | None, start: int, end: int, total: int | None, url: str) -> None:
+    """Reject a 206 whose ``Content-Range`` is not the range (and object size) that was asked for.
+
+    The body length alone cannot tell a chunk from a different, equally long part
+    of the object, nor reveal that the probe under-reported the object's size; the
+    header can.  A response without a parseable header is left to the length check.
+    """
+    if content_range is None:
+        return
+    match = _CONTENT_RANGE_RE.match(content_range)
+    if match is None:
+        return
+    got_start, got_end = int(match.group(1)), int(match.group(2))
+    if got_start != start or got_end != end:
+        raise RuntimeError(
+            f"Range response mismatch: requested bytes={start}-{end}, origin sent bytes={got_start}-{got_end} "
+            f"of {redact_url(url)}"
+        )
+    if total is not None and match.group(3) != "*" and int(match.group(3)) != total:
+        raise RuntimeError(
+            f"Object size mismatch: probe reported {total} bytes, range response reports {match.group(3)} "
+            f"(bytes={start}-{end} of {redact_url(url)})"
+        )
+
+
 def _compute_ranges(content_length: int, chunk_size: int) -> list[tuple[int, int]]:
     """Compute (start, end) byte ranges for parallel fetch.
 
@@ -708,6 +736,7 @@ async def _fetch_one_chunk(
     semaphore: asyncio.Semaphore,
     config: FetchConfig,
     url_validator: Callable[[str], None] | None,
+    total: int | None = None,
 ) -> bytes:
     """Fetch a single byte range.
 
@@ -725,6 +754,7 @@ async def _fetch_one_chunk(
                 raise RuntimeError(
                     f"Expected HTTP 206 for Range request, got {resp.status} (bytes={start}-{end} of {redact_url(url)})"
                 )
+            _check_content_range(resp.headers.get("Content-Range"), start, end, total, url)
             try:
                 return await _read_range_response_body(resp, expected_size, config)
             except RuntimeError as exc:
@@ -755,7 +785,7 @@ async def _fetch_chunks_with_hedging(
         t0 = time.monotonic()
 
         async def _timed_fetch() -> tuple[int, bytes]:
-            data = await _fetch_one_chunk(client, url, start, end, semaphore, config, url_validator)
+            data = await _fetch_one_chunk(client, url, start, end, semaphore, config, url_validator, content_length)
             elapsed = time.monotonic() - t0
             completion_times.append(elapsed)
             return idx, data
